@@ -1,4 +1,18 @@
 #[cfg(kani)]
+impl<T: ?Sized> Mutex<T> {
+    /// (cfg(kani)) observers / preparation for contracts in sibling modules
+    pub(crate) fn verif_holder(&self) -> Option<TaskId> {
+        self.state.borrow().holder
+    }
+    pub(crate) fn verif_permits(&self) -> usize {
+        self.semaphore.available_permits()
+    }
+    pub(crate) fn verif_prepare_free(&self) {
+        self.semaphore.verif_take(0);
+    }
+}
+
+#[cfg(kani)]
 mod verif_mutex {
     //! C04: Mutex segments on the real semaphore. inv_M: holder.is_some() <=> no permit available.
     use super::*;
@@ -30,11 +44,24 @@ mod verif_mutex {
     #[kani::stub(shuttle_engine::runtime::thread::continuation::switch, verif_switch)]
     #[kani::stub(std::hash::RandomState::new, fixed_random_state)]
     #[kani::stub(shuttle_engine::backtrace_enabled, stub_false)]
-    fn c04_mutex_try_lock() {
+    fn c04_mutex_try_lock_free() {
+        try_lock_contract(false);
+    }
+
+    #[kani::proof]
+    #[kani::solver(minisat)]
+    #[kani::unwind(5)]
+    #[kani::stub(shuttle_engine::runtime::thread::continuation::switch, verif_switch)]
+    #[kani::stub(std::hash::RandomState::new, fixed_random_state)]
+    #[kani::stub(shuttle_engine::backtrace_enabled, stub_false)]
+    fn c04_mutex_try_lock_held() {
+        try_lock_contract(true);
+    }
+
+    fn try_lock_contract(held: bool) {
         let mut store = new_store();
         use_store(&mut store);
         let st = state_with([TaskState::Runnable, TaskState::Runnable, BLOCKED], 0, Rc::new(RefCell::new(SpecSched::new())));
-        let held: bool = kani::any();
         let m = mk_mutex(if held { Some(1) } else { None });
         let (r, _cell) = run_in(st, || m.try_lock());
         assert!(switches() == 1);
@@ -52,8 +79,7 @@ mod verif_mutex {
             }
             Err(TryLockError::Poisoned(_)) => assert!(false),
         }
-        kani::cover!(held);
-        kani::cover!(!held);
+        kani::cover!(true);
         std::mem::forget(r);
         std::mem::forget(m);
     }
@@ -66,12 +92,25 @@ mod verif_mutex {
     #[kani::stub(shuttle_engine::runtime::thread::continuation::switch, verif_switch)]
     #[kani::stub(std::hash::RandomState::new, fixed_random_state)]
     #[kani::stub(shuttle_engine::backtrace_enabled, stub_false)]
-    fn c04_mutex_unlock() {
+    fn c04_mutex_unlock_no_waiter() {
+        unlock_contract(false);
+    }
+
+    #[kani::proof]
+    #[kani::solver(minisat)]
+    #[kani::unwind(5)]
+    #[kani::stub(shuttle_engine::runtime::thread::continuation::switch, verif_switch)]
+    #[kani::stub(std::hash::RandomState::new, fixed_random_state)]
+    #[kani::stub(shuttle_engine::backtrace_enabled, stub_false)]
+    fn c04_mutex_unlock_wakes_waiter() {
+        unlock_contract(true);
+    }
+
+    fn unlock_contract(waiting: bool) {
         let mut store = new_store();
         use_store(&mut store);
         let st = state_with([TaskState::Runnable, BLOCKED, BLOCKED], 0, Rc::new(RefCell::new(SpecSched::new())));
         let m = mk_mutex(Some(0));
-        let waiting: bool = kani::any();
         if waiting {
             m.semaphore.verif_enqueue(1, 1);
         }
@@ -83,7 +122,7 @@ mod verif_mutex {
         assert!(m.inner.try_lock().is_ok()); // inner lock is free again
         assert!(task_state(&cell, 1) == if waiting { TaskState::Runnable } else { BLOCKED });
         assert!(task_state(&cell, 2) == BLOCKED);
-        kani::cover!(waiting);
+        kani::cover!(true);
         std::mem::forget(m);
     }
 
